@@ -107,7 +107,8 @@ def run_one(sid, in_repo=False, budget='45', passes=None):
     prop = meta.get('check_property', meta['property'])
     patch = open(os.path.join(dst, 'patch.diff')).read()
     env = dict(os.environ)
-    env['VERIF_BUDGET_S'] = budget
+    # (a change that only a deeper exploration reaches says so in its meta.json; DESIGN section 11.2 lists them)
+    env['VERIF_BUDGET_S'] = str(meta.get('budget', budget))
     if passes is False:
         env['VERIF_NO_ENVPASS'] = '1'
     t0 = time.time()
